@@ -116,3 +116,62 @@ Theorem C06_page_walk_refuted_deleted_boundary :
     page_walk es k desc = FOk (E_ATOI, 1, [3]) /\ lenZ es = 3.
 Proof. exact page_walk_refuted_deleted_boundary. Qed.
 Print Assumptions C06_page_walk_refuted_deleted_boundary.
+
+(* ---- bbs.LoadGeneralArticles as ONE CALL, with whatever cursor the client sends (Model: bbs_start -> find -> load_page) ----
+   [bbs_page es cur k desc] models bbs.LoadGeneralArticles(cursor, k, desc) on the board whose index is es: [cur = None] is
+   the empty cursor text, [Some (T, nm)] the text "<T>@<article id of M.<T>.A.<nm>>"; the result is the list of
+   (position, entry) pairs of the page and the entry after it (the next cursor).  [bbs_page_spec] (Model/C06.v) is the
+   property's reading: no cursor - the page from the newest / the first entry; a cursor - the page [page_of es s k desc] of
+   the k entries from the position s the LINEAR SCAN [find_spec] gives (the entry itself if present, else the nearest entry
+   in the listing direction) and the entry after them; NOT FOUND when the scan finds nothing in that direction.
+   For EVERY file with non-decreasing parsable times and unique names, EVERY cursor - present, absent, older than
+   everything, newer than everything - both directions, every page size: the call returns exactly that. *)
+Theorem C06_bbs_page_eq_scan : forall es cur k desc,
+  sorted es -> names_unique es -> bbs_page es cur k desc = bbs_page_spec es cur k desc.
+Proof. exact bbs_page_eq_scan. Qed.
+Print Assumptions C06_bbs_page_eq_scan.
+
+(* In particular a cursor with no entry in the listing direction - every parsable entry newer than it when listing newest
+   first, older than it when listing oldest first - ENDS the listing (not found): it is never answered with a page, so a
+   walk cannot start over from it. *)
+Theorem C06_bbs_cursor_out_of_range_ends : forall (es : list entry) (T nm : Z) (k : nat) (desc : bool),
+  sorted es -> names_unique es -> es <> [] ->
+  (forall i tn, vat es i tn -> if desc then T < fst tn else fst tn < T) ->
+  bbs_page es (Some (T, nm)) k desc = FErr E_NOTFOUND.
+Proof. exact bbs_cursor_out_of_range. Qed.
+Print Assumptions C06_bbs_cursor_out_of_range_ends.
+
+(* STALE CURSORS (histories).  [times_strict es]: parsable creation times strictly increase; [deletions es es']: es' is es
+   after any number of deletions (same length; every entry unchanged or unparsable now).  If (T, nm) was the entry at
+   0-based position i of es, then on ANY such later file es' the cursor (T, nm) resolves - in either direction - to
+   [nearest_live es' desc i]: the nearest parsable entry of es' at or after position i in the listing direction (position
+   j + 1, nothing parsable between i and j), and to NOT FOUND when no parsable entry is left in that direction.  A cursor
+   is a bookmark that survives deletions: it never points back into what was listed already.
+   (times_strict is not droppable: stale_cursor_equal_times_goes_back in Proofs/C06.v - with two articles of one second
+   the scan by creation time returns to the far end of that second.) *)
+Theorem C06_stale_cursor_is_bookmark : forall es es' i T nm desc,
+  times_strict es -> deletions es es' -> vat es i (T, nm) ->
+  nearest_live es' desc i (find es' (lenZ es') T (Some nm) desc).
+Proof. exact stale_cursor_bookmark. Qed.
+Print Assumptions C06_stale_cursor_is_bookmark.
+
+(* THE WALK RESUMED AFTER DELETIONS.  [bwalk fuel es k desc cur pg dels vis tr] iterates bbs.LoadGeneralArticles on the
+   cursors it hands out (Model/C06.v; [vis] = positions listed so far, [dels] = deletions still scheduled).  A cursor
+   (T, nm) was handed out for position i of es; when the next page is requested the file is es' (any deletions since).
+   Then EITHER some entry survives at or after i in the listing direction, j is the nearest one, and the rest of the walk
+   lists j+1, j+1 +- 1, ... - each position once, in order, nothing before j+1 again - to the end of the file (code 0, all
+   [remn es' desc (j+1)] remaining positions) or to an unparsable page boundary (the known finding, code E_ATOI, a proper
+   prefix), never out of fuel; OR nothing survives in that direction and the walk ends at once with NOT FOUND having
+   listed nothing more.  Every further deletion starts another instance of this theorem. *)
+Theorem C06_walk_resumes_after_deletions :
+  forall (es es' : list entry) (i T nm : Z) (k : nat) (desc : bool) (pg : Z) (vis tr : list Z),
+  times_strict es -> deletions es es' -> vat es i (T, nm) -> (0 < k)%nat ->
+  (exists j tn, (if desc then j <= i else i <= j) /\ vat es' j tn /\
+     (forall j' tn', (if desc then j < j' <= i else i <= j' < j) -> ~ vat es' j' tn') /\
+     exists code pg' m tr',
+       bwalk (bwfuel es') es' k desc (Some (T, nm)) pg [] vis tr = FOk (code, pg', vis ++ zseq (dir desc) (j + 1) m, tr') /\
+       ((code = 0 /\ m = Z.to_nat (remn es' desc (j + 1))) \/ (code = E_ATOI /\ (m < Z.to_nat (remn es' desc (j + 1)))%nat))) \/
+  ((forall j tn, (if desc then j <= i else i <= j) -> ~ vat es' j tn) /\
+   bwalk (bwfuel es') es' k desc (Some (T, nm)) pg [] vis tr = FOk (E_NOTFOUND, pg, vis, tr)).
+Proof. exact walk_resumes_after_deletions. Qed.
+Print Assumptions C06_walk_resumes_after_deletions.
